@@ -124,6 +124,19 @@ Theorem C11_system_code_closed_out : forall r ps sched boot ls,
   (exists vs, on_topic TPromptNotice (pubs_run r del) = map Some vs ++ [None]).
 Proof. exact code_closed_out. Qed.
 
+(** ... and the subscribers of a closed-out topic are stopped by the broker item's CODE (C08's regenerated PubSubItem) *)
+Theorem C11_system_code_subscribers_terminate : forall r ps sched boot ls,
+  let del := code_delivered r ps sched boot ls in
+  forall t ops,
+    In t (trace_starts del) ->
+    map forget (filter is_publisher_op ops) = map to_op (on_topic (TPromptInfoFor t) (pubs_run r del)) ->
+    forall s, (s < List.length (PS.i_subs (PS.run false ops)))%nat ->
+    exists n outs,
+      PI.iouts false (ops ++ repeat (PS.Next s) (S n)) = Some outs /\
+      let tail := skipn (List.length ops) outs in
+      last tail PS.OBlocked = PS.OStop /\ ~ In PS.OBlocked tail.
+Proof. exact code_subscribers_terminate. Qed.
+
 (** non-vacuity: two actors (a trace with a prompt, a trace without), interleaved; the relay is killed after three events
     were put of which two got through: the delivered stream is the 2-event prefix, still a well-formed prefix, and the
     close-out leaves no active trace *)
@@ -161,3 +174,4 @@ Print Assumptions C11_system_code_delivered_wf_prefix.
 Print Assumptions C11_system_code_whole_run.
 Print Assumptions C11_system_code_topics.
 Print Assumptions C11_system_code_closed_out.
+Print Assumptions C11_system_code_subscribers_terminate.
